@@ -208,6 +208,23 @@ def make_pred(assign, form, calls, idx_of):
     return pred
 
 
+def calls_bad(calls, expcalls):
+    """What the property fixes about the predicate's invocations: every node of the definition's scan
+    is asked, in that order; no node is asked twice; nothing is asked after the stop signal.  (Asking
+    about nodes below a selected/skipped branch and ignoring the answer would be allowed.)"""
+    if len(set(calls)) != len(calls):
+        return "a node was asked about twice"
+    it = iter(calls)
+    if not all(any(c == x for x in it) for c in expcalls):
+        return f"the scan order {expcalls} is not a subsequence"
+    if expcalls and calls and calls[-1] != expcalls[-1] and len(calls) > len(expcalls):
+        # something was asked after the last node of the definition's scan (e.g. after a stop)
+        tail = calls[calls.index(expcalls[-1]) + 1:]
+        if tail:
+            return f"nodes {tail} were asked about after the scan had ended"
+    return None
+
+
 def nest_idx(holder, idx_of):
     return [(idx_of[c.data], nest_idx(c, idx_of)) for c in holder.children]
 
@@ -292,8 +309,8 @@ def run_case(case, res):
                 got = nest_lab(holder)
                 if got != lab_nest(exp):
                     bad.append(f"filter() result {got}, expected {lab_nest(exp)}")
-                elif calls != expcalls:
-                    bad.append(f"filter() asked the predicate about {calls}, expected {expcalls}")
+                elif calls_bad(calls, expcalls):
+                    bad.append(f"filter() asked the predicate about {calls}: {calls_bad(calls, expcalls)}")
                 else:
                     # survivors keep their identity; count agrees
                     def same(lst, hold):
@@ -346,8 +363,8 @@ def run_case(case, res):
                     e = lab_nest(exp)
                 else:
                     e = lab_nest([(start, exp)])
-                if calls != expcalls:
-                    bad.append(f"{which} asked the predicate about {calls}, expected {expcalls}")
+                if calls_bad(calls, expcalls):
+                    bad.append(f"{which} asked the predicate about {calls}: {calls_bad(calls, expcalls)}")
                 if got == e:
                     res.count("copying_equal_definition")
                     # data objects are shared with the source
